@@ -26,17 +26,21 @@ type LeveldbDiskStorage struct {
 
 // Create a new table, destroying any existing table.
 func (f LeveldbDiskStorage) Create(tbl *btapb.Table) Rows {
-	f.SetTableMeta(tbl)
-	verifPoint("Create.afterMeta")
 	path := filepath.Join(f.Root, tbl.Name)
 	newFunc := func(nuke bool) *leveldb.DB {
 		return newDiskDb(path, nuke)
 	}
 
-	return &leveldbRows{
+	// Start from an empty database first and publish the table metadata last: a restart finds tables by their
+	// metadata file, so a table interrupted half-way through its creation must not show up with whatever an earlier
+	// table of that name left in the directory.
+	rows := &leveldbRows{
 		db:      newFunc(true),
 		newFunc: newFunc,
 	}
+	f.SetTableMeta(tbl)
+	verifPoint("Create.afterMeta")
+	return rows
 }
 
 // GetTables returns metadata about all stored tables.
